@@ -91,6 +91,87 @@ PROPS = {
         "trusted_base": TB_COMMON,
         "assumptions": MEM_ASSUME + ["multi-threaded leave/hand-off multiset check is part of the C02 concurrent campaign"],
     },
+    "C02": {
+        "domain": "mem",
+        "proof_module": "FoyerProofs.C02",
+        "theorems": [
+            "Foyer.C02.reads_latest", "Foyer.C02.reads_latest_from", "Foyer.C02.lookup_step", "Foyer.C02.reads_observe_lookup",
+            "Foyer.C02.held_stable", "Foyer.C02.atomic_sections_linearizable", "Foyer.C02.concurrent_reads_latest",
+            "Foyer.Conc.J_step", "Foyer.fifo_lawful", "Foyer.oracle_lawful",
+        ],
+        "monitor_props": ["C02"],
+        "campaigns": {
+            "quick": [
+                {"name": "mem-oracle-random", "args": ["mode=oracle", "cases=800", "maxops=40"]},
+                {"name": "memc-threads", "domain": "memc", "args": ["cases=400", "threads=4", "ops=6"]},
+            ],
+            "thorough": [
+                {"name": "mem-oracle-random", "args": ["mode=oracle", "cases=20000", "maxops=80"]},
+                {"name": "memc-threads", "domain": "memc", "args": ["cases=20000", "threads=4", "ops=7"]},
+            ],
+        },
+        "nontrivial": r"ret=h:|op=remove|op=clear",
+        "rule": "(i) sequential traces of the real Cache validated against the model (same generator as C05); (ii) concurrent "
+                "histories: 2-4 OS threads run random programs (insert / remove / get / contains / touch / clear / resize / "
+                "evict_all, handles held across calls; keys shared, 1-3 keys; 5 algorithms; shards 1..4) on one Cache, each call "
+                "stamped with a global clock at invoke and response; per key the Lean driver decides linearizability against "
+                "the register-with-misses by exhaustive search over real-time-respecting orders (exact per history; schedules "
+                "are whatever the OS gives plus PRNG spin jitter); non-trivial = contains a hit, a remove or a clear",
+        "trusted_base": TB_COMMON,
+        "assumptions": MEM_ASSUME + ["Part B's premise: every call is one atomic section (the shard lock); memory-model effects "
+                                     "(Relaxed/Acquire) and the two-phase handle drop are outside the model"],
+    },
+    "C17": {
+        "domain": "mem",
+        "proof_module": "FoyerProofs.C17",
+        "theorems": ["Foyer.C17.mem_own_key_or_miss", "Foyer.C17.mem_colliding_keys_independent", "Foyer.C02.reads_latest",
+                     "Foyer.C02.reads_observe_lookup"],
+        "monitor_props": ["C17", "C02"],
+        "campaigns": {
+            "quick": [
+                {"name": "mem-colliding", "args": ["mode=oracle", "cases=800", "maxops=40", "collide=1"]},
+                {"name": "memc-colliding", "domain": "memc", "args": ["cases=200", "threads=3", "ops=6", "collide=1"]},
+            ],
+            "thorough": [
+                {"name": "mem-colliding", "args": ["mode=oracle", "cases=20000", "maxops=80", "collide=1"]},
+                {"name": "memc-colliding", "domain": "memc", "args": ["cases=5000", "threads=4", "ops=7", "collide=1"]},
+            ],
+        },
+        "nontrivial": r"ret=h:",
+        "rule": "memory-only part: user-supplied hashers with full 64-bit collisions (constant hash) and same-shard collisions "
+                "(mod / div), op sequences over the colliding key set, sequential (model-validated) and concurrent; non-trivial = "
+                "at least one hit; the disk tier part of C17 is covered by the hybrid campaigns once claimed (see level_note)",
+        "trusted_base": TB_COMMON,
+        "assumptions": MEM_ASSUME,
+    },
+    "C18": {
+        "domain": "mem",
+        "proof_module": "FoyerProofs.C18",
+        "theorems": [
+            "Foyer.C18.held_data_stable", "Foyer.C18.lru_get_pins", "Foyer.C18.lru_held_not_victim",
+            "Foyer.C18.lru_pinned_is_held", "Foyer.C18.lru_no_leak", "Foyer.C18.lru_protects", "Foyer.C18.lru_unprotects",
+            "Foyer.protected_step", "Foyer.heldInv_step", "Foyer.C14.lru_never_pops_pinned",
+        ],
+        "monitor_props": ["C18"],
+        "campaigns": {
+            "quick": [
+                {"name": "mem-oracle-random", "args": ["mode=oracle", "cases=800", "maxops=40"]},
+                {"name": "mem-algo-lru", "args": ["mode=algo", "cases=1200", "maxops=60", "algos=lru"]},
+            ],
+            "thorough": [
+                {"name": "mem-oracle-random", "args": ["mode=oracle", "cases=20000", "maxops=80"]},
+                {"name": "mem-algo-lru", "args": ["mode=algo", "cases=40000", "maxops=120", "algos=lru"]},
+            ],
+        },
+        "nontrivial": r"held=[0-9]",
+        "rule": "handle-centric random sequences (insert / get / touch / clone / drop interleaved with replace, remove, clear, "
+                "resize, evicting inserts; every trace ends by dropping all handles and one more insert) on the real Cache: after "
+                "every op refs()/is_outdated()/key/value/weight of every held handle are compared with the model and with the "
+                "monitor; LRU additionally in algorithm mode (pin list predicted); non-trivial = some handle held across an op",
+        "trusted_base": TB_COMMON,
+        "assumptions": MEM_ASSUME + ["the two-step handle drop (dec_refs, then lock + release) is modelled as one step; the "
+                                     "window between the two halves is outside the model (DESIGN.md §6 C18, F-E)"],
+    },
     "C05": {
         "domain": "mem",
         "proof_module": "FoyerProofs.C05",
@@ -134,4 +215,29 @@ CLAIMS = {
             "note": MEM_NOTE + "; determinism is definitional (the models are functions)", "technique":
                 "Lean 4 proof (lawfulness via permutation laws, per-algorithm rules) + victim-by-victim correspondence"},
 }
+CLAIMS.update({
+    "C02": {"text": "Lean 4 theorems: (A) the sequential model refines, per key, an atomic register whose reads may miss, for every "
+                    "operation sequence, lawful policy, hasher and shard count; (B) for every interleaving of invoke / atomic step / "
+                    "respond over any sequential object the atomic-step order is a real-time-respecting legal linearization, composed "
+                    "with (A) for the cache; (C) held handles keep denoting the same record. Tied to /repo by sequential trace "
+                    "validation and by exact per-history linearizability checks of recorded multi-threaded histories",
+            "note": MEM_NOTE + "; Part B assumes each call is one atomic section (lock); schedule coverage of the concurrent "
+                    "campaign is whatever the OS provides (history check itself is exact); memory-model effects not modelled",
+            "technique": "Lean 4 proof (refinement to a per-key register + generic atomic-sections-linearizable theorem) + "
+                         "sequential trace validation + exact linearizability check of recorded concurrent histories"},
+    "C17": {"text": "Lean 4 theorems for an arbitrary (also constant) hasher: a memory lookup returns an entry of the requested key "
+                    "carrying its latest not-superseded insert, or a miss; operations on another key never change a key's register. "
+                    "Correspondence with user-supplied colliding hashers (full 64-bit and same-shard collisions), sequential and "
+                    "concurrent. The disk-tier half (index by hash, key check) is claimed through C01's machinery when present",
+            "note": MEM_NOTE + "; PARTIAL: only the in-memory tier is covered by this check so far",
+            "technique": MEM_TECH},
+    "C18": {"text": "Lean 4 theorems: held handles denote unchanged records; under LRU a looked-up record is pinned, a pinned record "
+                    "is never a victim and stays pinned until an operation addresses it; in every reachable state every pinned "
+                    "record has an outstanding handle, so with no handles outstanding an insert that fits brings the shard within "
+                    "capacity (no leak). Correspondence: refs()/is_outdated()/data of every held handle after every op vs. model "
+                    "and monitor, LRU pin list predicted in algorithm mode",
+            "note": MEM_NOTE + "; is_outdated is definitional in the model (index membership) and tied to the IN_INDEXER flag only "
+                    "by the correspondence; the two-step drop race (F-E) is outside the model",
+            "technique": "Lean 4 proof (generic protected-record invariants instantiated for the LRU pin list) + trace validation"},
+})
 NOT_CLAIMED = {}
